@@ -56,6 +56,9 @@ func makeScenarios(c *core.Ctx, n int) []Scenario {
 		if i%9 >= 6 { // disk gets a larger share: it is the engine with background loops
 			eng = "disk"
 		}
+		if i%9 == 5 { // upsidedown over boltdb (file-backed KV readers) instead of gtreap
+			eng = "udbolt"
+		}
 		sc := Scenario{
 			ID: i, Seed: c.Seed*1_000_003 + int64(i), Engine: eng,
 			Workers: 3 + c.Rand.Intn(6), Ops: 4 + c.Rand.Intn(14), Late: 2,
@@ -63,6 +66,9 @@ func makeScenarios(c *core.Ctx, n int) []Scenario {
 		}
 		if eng == "ud" {
 			sc.Prepop = 1100 + c.Rand.Intn(200)
+		}
+		if eng == "udbolt" {
+			sc.Prepop = 300 + c.Rand.Intn(100)
 		}
 		if eng == "disk" && c.Rand.Intn(4) == 0 {
 			sc.Unsafe = true
@@ -749,7 +755,7 @@ func runHazards(c *core.Ctx, bin string) {
 }
 
 func engClass(e string) string {
-	if e == "ud" {
+	if e == "ud" || e == "udbolt" {
 		return "upsidedown"
 	}
 	return "scorch"
